@@ -34,14 +34,17 @@ def fsHandlers : List (String × String) := [
   ("_file_action", "def _file_action(request, context):\n    file = self.get_file(folder_name=request[0], file_name=request[1])\n    return file._request_manager(request[2:], context)")
 ]
 
+-- re-read 2026-09-26 after fix 4477cb4: each validator first answers False when the request carries fewer options than it
+-- reads (the model's operations always carry them, so the modelled behaviour is unchanged)
 def validators : List (String × String) := [
-  ("FileSystem._FolderExistsValidator", "return self.file_system.get_folder(folder_name=request[0]) is not None"),
-  ("FileSystem._FolderNotDeletedValidator", "folder = self.file_system.get_folder(folder_name=request[0], include_deleted=True); return folder is not None and (not folder.deleted)"),
-  ("FileSystem._FileExistsValidator", "return self.file_system.get_file(folder_name=request[0], file_name=request[1]) is not None"),
-  ("Folder._FileExistsValidator", "return self.folder.get_file(file_name=request[0]) is not None"),
-  ("Folder._FileNotDeletedValidator", "file = self.folder.get_file(file_name=request[0]); return file is not None and (not file.deleted)")
+  ("FileSystem._FolderExistsValidator", "if len(request) < 1:\n    return False; return self.file_system.get_folder(folder_name=request[0]) is not None"),
+  ("FileSystem._FolderNotDeletedValidator", "if len(request) < 1:\n    return False; folder = self.file_system.get_folder(folder_name=request[0], include_deleted=True); return folder is not None and (not folder.deleted)"),
+  ("FileSystem._FileExistsValidator", "if len(request) < 2:\n    return False; return self.file_system.get_file(folder_name=request[0], file_name=request[1]) is not None"),
+  ("Folder._FileExistsValidator", "if len(request) < 1:\n    return False; return self.folder.get_file(file_name=request[0]) is not None"),
+  ("Folder._FileNotDeletedValidator", "if len(request) < 1:\n    return False; file = self.folder.get_file(file_name=request[0]); return file is not None and (not file.deleted)")
 ]
 
+-- re-read 2026-09-26 after a79d153 (restore countdown loaded with max(duration, 1))
 def methods : List (String × String) := [
   ("FileSystem.__init__", "def __init__(self, **kwargs):\n    super().__init__(**kwargs)\n    if not self.folders:\n        self.create_folder('root')"),
   ("FileSystem.create_folder", "def create_folder(self, folder_name):\n    folder = self.get_folder(folder_name)\n    if folder:\n        pass\n    else:\n        folder = Folder(name=folder_name, sys_log=self.sys_log)\n        self._folder_request_manager.add_request(name=folder.name, request_type=RequestType(func=folder._request_manager))\n    self.folders[folder.uuid] = folder\n    if self._default_folder_scan_duration is not None:\n        folder.scan_duration = self._default_folder_scan_duration\n    if self._default_folder_restore_duration is not None:\n        folder.restore_duration = self._default_folder_restore_duration\n    return folder"),
@@ -62,7 +65,7 @@ def methods : List (String × String) := [
   ("Folder.remove_file_by_name", "def remove_file_by_name(self, file_name):\n    for f in self.files.values():\n        if f.name == file_name:\n            self.remove_file(f)\n            return True\n    return False"),
   ("Folder.remove_all_files", "def remove_all_files(self):\n    for file_id in self.files:\n        file = self.files.get(file_id)\n        file.delete()\n        self.deleted_files[file_id] = file\n    self.files = {}"),
   ("Folder.restore_file", "def restore_file(self, file_name):\n    file = self.get_file(file_name=file_name, include_deleted=True)\n    if not file:\n        return False\n    file.restore()\n    self.files[file.uuid] = file\n    self._file_request_manager.add_request(file.name, RequestType(func=file._request_manager))\n    self.deleted_files.pop(file.uuid, None)\n    return True"),
-  ("Folder.restore", "def restore(self):\n    if self.deleted:\n        self.deleted = False\n    if self.restore_countdown <= 0:\n        self.restore_countdown = self.restore_duration\n        self.health_status = FileSystemItemHealthStatus.RESTORING\n    else:\n        pass\n    return True"),
+  ("Folder.restore", "def restore(self):\n    if self.deleted:\n        self.deleted = False\n    if self.restore_countdown <= 0:\n        self.restore_countdown = max(self.restore_duration, 1)\n        self.health_status = FileSystemItemHealthStatus.RESTORING\n    else:\n        pass\n    return True"),
   ("Folder.delete", "def delete(self):\n    if self.deleted:\n        return False\n    self.deleted = True\n    return True"),
   ("Folder._restoring_timestep", "def _restoring_timestep(self):\n    if self.restore_countdown >= 0:\n        self.restore_countdown -= 1\n        if self.restore_countdown == 0:\n            for file_id, file in self.files.items():\n                self.restore_file(file_name=file.name)\n            deleted_files = self.deleted_files.copy()\n            for file_id, file in deleted_files.items():\n                self.restore_file(file_name=file.name)\n            if self.deleted:\n                self.deleted = False\n            elif self.health_status in [FileSystemItemHealthStatus.CORRUPT, FileSystemItemHealthStatus.RESTORING]:\n                self.health_status = FileSystemItemHealthStatus.GOOD"),
   ("Folder.apply_timestep", "def apply_timestep(self, timestep):\n    super().apply_timestep(timestep=timestep)\n    self._scan_timestep()\n    self._reveal_to_red_timestep()\n    self._restoring_timestep()\n    for file_id in self.files:\n        self.files[file_id].apply_timestep(timestep=timestep)"),
